@@ -25,7 +25,10 @@ func HDecryptArbitrary() {
 			ct = append(append([]byte{}, ct[:16]...), vSpecEncrypt(key, ct[:16], p)...)
 		}
 	}
+	before := append([]byte{}, ct...)
 	pt, err := c.Decrypt(ct)
+	// Decrypt does not write into the ciphertext it is given (read-only sharing between decoders, C18)
+	vr.Assert("c04.input-unchanged", vr.EqBytes(ct, before))
 	if err != nil {
 		vr.Cover("c10.decrypt.rejected")
 		return
